@@ -1,0 +1,40 @@
+//go:build verif
+
+// Machine-checked contracts for package rdb (comment-only; read by /verif's govc).
+// With the build tag off this file is not compiled; with it on it adds no code.
+
+package rdb
+
+//@ spec le32(d slice, i int) int = d[i] + 256*d[i+1] + 65536*d[i+2] + 16777216*d[i+3]
+
+//@ func ReadNextChunk
+//@ ensures len(data) == 0 ==> err == io.EOF
+//@ ensures len(data) > 0 && len(data) < 4 ==> err == io.ErrUnexpectedEOF
+//@ ensures len(data) >= 4 && le32(data, 0) + 4 > len(data) ==> err == io.ErrUnexpectedEOF
+//@ ensures len(data) >= 4 && le32(data, 0) + 4 <= len(data) ==> err == nil
+//@ ensures err == nil ==> ref(chunk) == ref(data) && off(chunk) == off(data) + 4 && len(chunk) == le32(data, 0)
+//@ ensures err == nil ==> ref(leftover) == ref(data) && off(leftover) == off(data) + 4 + le32(data, 0) && len(leftover) == len(data) - 4 - le32(data, 0)
+//@ ensures err != nil ==> leftover == data && chunk == nil
+
+//@ func copyBytes
+//@ ensures result != nil && fresh(result) && seqeq(result, b)
+
+//@ spec chunks(d slice, n int, off seq, idx seq) bool = n >= 0 && off[0] == 0 && off[n] == len(d) && forall(k, 0, n, off[k] + 4 <= off[k+1] && off[k+1] == off[k] + 4 + le32(d, off[k])) && forall(k, 0, n+1, idx[off[k]] == k) && forall(a, 0, n+1, forall(b, a, n+1, off[a] <= off[b]))
+//@ spec chunkEq(d slice, off seq, k int, v slice) bool = off[k+1] - off[k] - 4 == len(v) && forall(j, 0, len(v), d[off[k]+4+j] == v[j])
+
+//@ func delValue
+//@ ghost n int, off seq, idx seq
+//@ ghostret k int = idx[i]
+//@ requires chunks(data, n, off, idx)
+//@ requires ref(value) != ref(data)
+//@ modifies data[0:len(data)]
+//@ ensures[errkind] err == nil || err == ErrNXVal
+//@ ensures[nxval] err == ErrNXVal <==> forall(j, 0, n, !old(chunkEq(data, off, j, value)))
+//@ ensures[found] err == nil ==> 0 <= k && k < n && old(chunkEq(data, off, k, value)) && forall(j, 0, k, !old(chunkEq(data, off, j, value)))
+//@ ensures[shape] err == nil ==> len(result) == len(data) - (off[k+1]-off[k]) && ref(result) == ref(data) && off(result) == off(data)
+//@ ensures[prefix] err == nil ==> forall(q, 0, off[k], result[q] == old(data[q]))
+//@ ensures[suffix] err == nil ==> forall(q, off[k], len(result), result[q] == old(data[q + off[k+1] - off[k]]))
+//@ ensures[noeffect] err != nil ==> result == nil && forall(q, 0, len(data), data[q] == old(data[q]))
+//@ loop 0 invariant[pos] 0 <= idx[i] && idx[i] <= n && off[idx[i]] == i && forall(j, 0, idx[i], !chunkEq(data, off, j, value))
+//@ loop 0 invariant[same] l == len(data) && forall(q, 0, len(data), data[q] == old(data[q]))
+//@ loop 0 decreases l - i
